@@ -103,6 +103,8 @@ class Kernel(object):
         self.policy = policy or ("sticky", 0.9)
         self._pct = None
         self._yield_hint = False
+        self.gc_tick_p = 0.0
+        self._gc_rng = random.Random("%s/gc" % (seed,))
         self.replay_schedule = replay_schedule
         self._replay_pos = 0
         self.schedule = []  # recorded choices (task ids) at decision points
@@ -363,6 +365,12 @@ class Kernel(object):
             self.log.append((self.seq, cur.name, kind, detail))
         lo, hi = self.latency
         self.now_us += self._lat_rng.randint(lo, hi)
+        if kind == "step" and self.gc_tick_p and self._gc_rng.random() < self.gc_tick_p:
+            # when the cyclic garbage collector runs is one more thing a real deployment does not
+            # control: inside a run it is switched off and fired here, at points the seed decides
+            self.counters["gc_ticks"] = self.counters.get("gc_ticks", 0) + 1
+            import gc
+            gc.collect()
         if kind == "step":
             # the cap is a livelock guard, not a workload limit: every harness-level
             # operation (the "step" events) gets a fresh budget of max_events
